@@ -367,6 +367,10 @@ def check(ctx):
         run.check(ok, 'R19c', where(repo, w), rp.qualname, w, 'the file is copied out under a path that ignores the hash directory '
                   'recorded in the descriptor')
 
+    # ... and that path is read only after the hash directory was inserted (the order of the two; shared with C05 / C09 / C19): a
+    # path read before is the un-hashed one while the descriptor records the hashed one, and load() does not find the file
+    commits.r15_datafile_order(ctx)
+
     run.rule('LOAD', 'LOAD-SIDE: loading a data package iterates each selected resource keyed and with casting on')
     ld = repo.cls('dataflows.processors.load:load')
     sp = ctx.N(ld.methods['safe_process_datapackage'])
